@@ -12,6 +12,7 @@ import (
 	"github.com/free5gc/go-upf/internal/verif/c16"
 	"github.com/free5gc/go-upf/internal/verif/c19"
 	"github.com/free5gc/go-upf/internal/verif/c20"
+	"github.com/free5gc/go-upf/internal/verif/pworld"
 	"github.com/free5gc/go-upf/internal/verif/seqx"
 	"github.com/free5gc/go-upf/internal/verif/sworld"
 	"github.com/free5gc/go-upf/internal/verif/xlate"
@@ -29,6 +30,7 @@ var checks = map[string]func(tier string){
 	"C11": sworld.RunC11,
 	"C12": sworld.RunC12,
 	"C14": c14.Run,
+	"C15": pworld.Run,
 	"C16": c16.Run,
 	"C19": c19.Run,
 	"C20": c20.Run,
